@@ -293,14 +293,20 @@ def verify_contract(name, tier='quick', seed=0, repo=None, known=()):
             if p.live:
                 out['covers'] += 1
             pc_txt = [T.show(l, 3) for l in p.pc][:12]
+            bad_bases = set()
             for ob in p.obligations:
                 try:
                     b = budget
+                    base = re.sub(r'\[[0-9, ]*\]$', '', ob.name)
+                    if base in bad_bases:
+                        b = min(b, 4.0)     # a sibling entry of the same clause already failed on this path
                     if any(re.search(k, ob.name) for k in known):
                         b = 0.0     # clause listed as a known finding: samples and ring only, no solver runs
                     v = discharge(ob, alg, p.strict_live(), b, tier)
                 except EngineError as e:
                     v = dict(status='error', backend='engine', s=0.0, detail=str(e)[:300])
+                if v['status'] != 'proved':
+                    bad_bases.add(re.sub(r'\[[0-9, ]*\]$', '', ob.name))
                 rec = dict(name=ob.name, kind=ob.kind, path=pi, pc=pc_txt, goal=T.show(ob.goal, 4)[:200])
                 rec.update(v)
                 if ob.kind == 'safety' and v['status'] == 'proved':
